@@ -118,10 +118,10 @@ def gen_case(rng, force=None):
         times.append(t)
     nd = force.get("nd", rng.random() < 0.45)
     # writer models, already in execution order (group order of the pipeline, list order inside a group)
-    gs = sorted(rng.sample(range(len(GROUPS)), rng.choice([1, 2, 2, 3, 4])))
+    gs = sorted(rng.sample(range(len(GROUPS)), 1 if force.get("single_model") else rng.choice([1, 2, 2, 3, 4])))
     models = []
     for gi in gs:
-        for k in range(rng.choice([1, 1, 2])):
+        for k in range(1 if force.get("single_model") else rng.choice([1, 1, 2])):
             models.append([GROUPS[gi], f"w{k}"])
     # which buckets are initialised (in every step, by a fixed owner model), with which dtype
     photon3d = bool(force.get("photon3d")) or rng.random() < 0.25
@@ -241,6 +241,8 @@ def gen_case(rng, force=None):
         "rows": rows, "cols": cols, "detector": rng.choice(["CCD", "CMOS", "MKID"]), "times": times, "start": start, "nd": nd,
         "models": models, "plan": plan, "debug_layout_tree": rng.random() < 0.5,
         "second_run": rng.random() < 0.25,
+        # an earlier run of the same exposure on the same detector object, with another (valid) start time
+        "rerun_start": (times[0] - rng.randrange(1, 60) / 8.0) if (force.get("rerun") or rng.random() < 0.15) else None,
     }
 
 
@@ -399,10 +401,21 @@ def run_impl(case):
         except Exception as e:  # noqa: BLE001
             return {"error": common.err_kind(e), "msg": str(e)[:300], "tb": traceback.format_exc()[-600:]}
 
-    out = {"flat": guarded(lambda: one_run(case, False, False)), "tree": guarded(lambda: one_run(case, True, False))}
+    def with_history(layout_tree, debug):
+        """the run, preceded — when the case says so — by the SAME exposure with another start time on the same detector
+        object (same times, same mode: only the start time differs between the two runs)"""
+        det = None
+        if case.get("rerun_start") is not None:
+            det = pyx.make_detector(case["detector"], case["rows"], case["cols"])
+            one_run(dict(case, start=case["rerun_start"]), layout_tree, debug, det)
+        return one_run(case, layout_tree, debug, det)
+
+    out = {"flat": guarded(lambda: with_history(False, False)), "tree": guarded(lambda: with_history(True, False))}
 
     def debug_run():
         det = None
+        if case.get("rerun_start") is not None:
+            return with_history(case["debug_layout_tree"], True)
         if case.get("second_run"):
             # an earlier debug run on the same detector (other schedule, same pipeline shape)
             det = pyx.make_detector(case["detector"], case["rows"], case["cols"])
@@ -683,6 +696,11 @@ def body(ck: common.Check):
     cases = []
     for _ in range(90 if ck.tier == "quick" else 70 * k):
         cases.append(("random", gen_case(rng)))
+    # schedule lengths around powers of two / typical block sizes (one writer, tiny detector)
+    for n in ([16, 17, 33, 65] if ck.tier == "quick" else [15, 16, 17, 18, 31, 32, 33, 34, 63, 64, 65, 100, 129]):
+        cases.append(("long-schedules", gen_case(rng, {"nsteps": n, "single_model": True})))
+    for _ in range(6 * k):
+        cases.append(("rerun-other-start", gen_case(rng, {"rerun": True, "nsteps": rng.choice([1, 2, 3])})))
     for _ in range(6 * k):
         cases.append(("regrid", gen_case(rng, {"photon3d": True, "regrid": True, "nsteps": rng.choice([1, 2, 3])})))
     for dt in UINTS:
@@ -725,13 +743,14 @@ def body(ck: common.Check):
         ck.count("scene-written", int(any(op[0] == "scene" for op in ops)))
         ck.count("data-written", int(any(op[0] == "data" for op in ops)))
         ck.count("second-run-on-same-detector", int(bool(case.get("second_run"))))
+        ck.count("rerun-with-other-start-time", int(case.get("rerun_start") is not None))
         why = property_predicate(case, impl)
         if why is not None:
             small = {t: ({"error": impl[t]["error"], "msg": impl[t]["msg"]} if "error" in impl[t] else
                          {"result": impl[t]["result"], "nodes": impl[t]["intermediate"]}) for t in ("flat", "tree", "debug")}
             ck.violation(why[0], why[1], {"case": case, "impl": small})
         compare_with_model(ck, case, impl, ans)
-    ck.rule = ("pipelines of 1-8 writer probes over 1-4 groups + a snapshot probe last; 1-6 readouts, start time ≠ 0, both modes; "
+    ck.rule = ("pipelines of 1-8 writer probes over 1-4 groups + a snapshot probe last; 1-6 readouts (and 16, 17, 33, 65 …), start time ≠ 0, both modes; "
                "buckets initialised in every step or in none, by a fixed owner model: photon 2-D/3-D (2-3 wavelengths) float16/32/64, "
                "signal float16/32/64, image uint8/16/32/64 (uint64 also with values above 2^53), charge (as array or as clusters put in "
                "with add_charge / add_charge_dataframe, then rescaled or moved with set_frame_values, removed with remove_from_frame (one pixel's clusters, or all of them), "
